@@ -715,6 +715,8 @@ class RankEnv:
             return max(rs) if rs else 0
         if isinstance(t, Lit):
             return 0
+        if isinstance(t, Idx) and isinstance(t.base, App) and t.base.fn in ("numpy.linalg.slogdet",):
+            return 0
         if isinstance(t, Idx):
             rb = self.rank(t.base)
             if rb is None:
@@ -776,6 +778,11 @@ def index(base: T, idx: Tuple[T, ...], ranks: Optional[RankEnv] = None) -> T:
         cv = idx[0].const_value() if isinstance(idx[0], Poly) else None
         if cv is not None and cv.denominator == 1 and -len(base.elems) <= cv < len(base.elems):
             return base.elems[int(cv)]
+    if isinstance(base, Comp) and not base.conds and base.kind == "list" and len(idx) == 1 and not isinstance(idx[0], Slc):
+        # element k of [elt(v) for v in range(lo, hi, step)] is elt(lo + k*step)
+        if isinstance(base.iter, Range):
+            v = add(base.iter.lo, mul(idx[0], base.iter.step))
+            return substitute(base.elt, {base.var.key: v})
     if isinstance(base, Idx) and not any(isinstance(i, Slc) for i in base.idx) and not any(isinstance(i, Slc) for i in idx):
         # A[i][j] == A[i, j] for arrays; keep nested form for unknown ranks (lists of lists)
         rb = ranks.rank(base.base)
